@@ -1109,6 +1109,9 @@ class _AsyncConnectionWrapper:
             # Push push_phase_shift (must be called from node thread)
             self.input_node._submit(self.input_node.push_phase_shift)
 
+            # The next expected ts_max may already be complete (e.g. it expects zero messages).
+            self.push_ts_max()
+
     def push_ts_input(self, msg, header: base.Header):
         # WALL_CLOCK: called by input.push_input --> msg: actual message
         # SIMULATED: called by output.push_ts_output --> msg: ts_output
